@@ -172,7 +172,7 @@ func boardNow(bid ptttype.Bid) (attr, level uint32) {
 }
 
 // setRelation makes the three relation facts true or false for (reader, bid).
-func setRelation(bid ptttype.Bid, uid ptttype.UID, bmCache, friend, named bool, rot int) {
+func setRelation(bid ptttype.Bid, uid ptttype.UID, bmCache, friend, named bool, rot int, rawBM []byte) {
 	idx := bid.ToBidInStore()
 	filler := uidFiller
 	if uid == filler {
@@ -186,7 +186,9 @@ func setRelation(bid ptttype.Bid, uid ptttype.UID, bmCache, friend, named bool, 
 	}
 	b := &cache.Shm.Shm.BCache[idx]
 	b.BM = ptttype.BM_t{}
-	if named {
+	if rawBM != nil {
+		copy(b.BM[:], rawBM) // nlist: the moderator string byte for byte
+	} else if named {
 		if rot%2 == 0 {
 			copy(b.BM[:], "buddy/"+readerName)
 		} else {
@@ -214,10 +216,14 @@ func setRelation(bid ptttype.Bid, uid ptttype.UID, bmCache, friend, named bool, 
 	}
 }
 
-func mkUser(level uint32, over18 bool) *ptttype.UserecRaw {
+func mkUser(level uint32, over18 bool, rawID []byte) *ptttype.UserecRaw {
 	u := &ptttype.UserecRaw{}
 	u.Version = ptttype.PASSWD_VERSION
-	copy(u.UserID[:], readerName)
+	if rawID != nil {
+		copy(u.UserID[:], rawID) // nlist: the user id byte for byte
+	} else {
+		copy(u.UserID[:], readerName)
+	}
 	copy(u.Nickname[:], "nick")
 	u.UserLevel = ptttype.PERM(level)
 	u.Over18 = over18
